@@ -4,7 +4,7 @@ interpreter over values, disjoint storage, moves and swap copy nothing).  Tie: h
 random histories: extensions (with index bases), all elements, block identity classes, allocator ids after every
 operation; monitors: pairwise disjoint storage, write-to-one-invisible-to-other probe after every copy, copy counter
 of moves and swap."""
-from . import core, lifecommon as lc
+from . import core, lifecommon as lc, rank0
 
 PID = "C04"
 
@@ -29,7 +29,10 @@ def plan(tier):
 def run(tier, seed, replay=None):
     if replay:
         res = core.Result(PID, tier, seed, level="proof")
-        lc.replay(res, PID, replay)
+        if rank0.is_rank0_replay(replay):
+            rank0.replay(res, PID, replay)
+        else:
+            lc.replay(res, PID, replay)
         return res.finish()
     res, _exes = lc.run_family(
         PID, tier, seed, plan(tier),
@@ -39,8 +42,9 @@ def run(tier, seed, replay=None):
              "any prior state (same extensions, same count, different, empty, moved-from, self), swap, element writes, "
              "operator==; 30% of the cases draw index bases in -3..3; trivial (int) and tracked non-trivial elements, "
              "ranks 1..4; non-trivial = at least 4 operations; distinct by hash",
-        not_exercised=["rank 0 arrays (separate class specialisation)", "execution-policy constructors",
+        not_exercised=["execution-policy constructors",
                        "sources of convertible element type with non-zero index bases"],
         assumptions=["histories are in the documented domain (no self view-assignment, swap of non-propagating unequal "
                      "allocators excluded)"])
+    rank0.run_family(res, tier, seed, PID)     # dimensionality 0: compile probes + h_rank0 (coverage under "rank0")
     return res.finish()
